@@ -100,6 +100,20 @@ def c_C_roundtrip(ctx, args):
         r = corr(ctx, 'np', 'gate_backward', [N, spec, l])
         if r:
             return r
+    elif mode in ('copy', 'used_copy'):
+        import vlib.impl_np as NP
+        g = NP.mk_gate(spec)
+        if mode == 'used_copy':
+            g.backward(NP.PL(l))           # materialises the lazily inverted map
+            g.forward(NP.PL(l))
+        c = g.copy()
+        def app(d, rows):
+            o = NP.PL(rows)
+            (c.forward if d == 'f' else c.backward)(o)
+            return NP.oPL(o)
+        f = app('f', l); fb = app('b', f); b = app('b', l); bf = app('f', b)
+        if f != I['gate_forward'](N, spec, l) or b != I['gate_backward'](N, spec, l):
+            return {'kind': 'oracle', 'where': 'np:%s of C(%d) acts differently from the gate' % (mode, k), 'observed': [f, b], 'expected': [I['gate_forward'](N, spec, l), I['gate_backward'](N, spec, l)], 'tags': ['C_copy']}
     else:
         import vlib.impl_np as NP
         def run(direction, rows):
@@ -135,7 +149,7 @@ def run(ctx):
             do(ctx, 'action', [5, [c, t], N], nontrivial=('a', 5, c, t, N), sample=(N == 3 and c > t))
     for k in range(24):
         for N, q in ((1, 0), (2, 1), (3, 1)):
-            for mode in ('gate', 'circuit', 'compiled'):
+            for mode in ('gate', 'circuit', 'compiled', 'copy', 'used_copy'):
                 do(ctx, 'C_roundtrip', [k, q, N, mode], nontrivial=('Cr', k, N, mode))
     ctx.res.exhaustive = True
     do(ctx, 'C_group', [], nontrivial='C_group')
